@@ -231,6 +231,20 @@ func genC14(seed uint64) *Scenario {
 					}
 					cl.Ops = append(cl.Ops, op)
 					lastD, lastHeavy = d, false
+				case x < 7 && r.chance(1, 2): // a timed call that is abandoned by the backtracking stack limit, not by its deadline
+					lf := lateLimit[r.n(len(lateLimit))]
+					in := lf.In
+					if r.chance(1, 3) {
+						in = lit(lf.Probe[r.n(len(lf.Probe))])
+					}
+					op := Op{Kind: heavyKinds[r.n(len(heavyKinds))], Re: addRe(sc, ReSpec{Pat: lf.Pat, Opts: lf.Opts, HasLimit: true, Limit: lf.Limit / 2, Private: c + 1}), In: in, N: -1, Repl: "<$0>"}
+					v := pristine(sc.Res[op.Re], &op, defaultOpCap)
+					if v.capped {
+						continue
+					}
+					op.TimeoutNs = 2*p + 8*int64(ncl)*v.steps*cost + r.i64(100*p)
+					cl.Ops = append(cl.Ops, op)
+					lastD, lastHeavy = op.TimeoutNs, false
 				case x < 7: // untimed call
 					f := quickTimed[r.n(len(quickTimed))]
 					op := Op{Kind: heavyKinds[r.n(len(heavyKinds))], Re: addRe(sc, ReSpec{Pat: f.Pat, Opts: f.Opts, Private: c + 1}), In: f.In, TimeoutNs: -1, N: -1, Repl: "<$0>"}
